@@ -49,6 +49,8 @@ def run(ctx, out):
     o2, w2 = S.apdu_switch(spec, ctx.rng)
     ops += o2; want += w2; names += ["apdu-switch"] * len(o2)
     impl, model = ctx.pair(ops)
+    from ..flow import history_check
+    history_check(ctx, out, ops, impl, "packet decoder")
     out.compare("dec(ref-encoded)", ops, impl, model)
     # reference encoder in python (oracle of this check) = reference encoder in Lean (subject of the theorem)
     ref_got = ctx.driver(ref_ops)
